@@ -435,6 +435,28 @@ def stage_solver(ctx):
     ctx.notes.append("worst observed deviations (exploration): " + ", ".join("%s=%.2e" % kv for kv in sorted(worst.items())))
 
 
+MULTI_PY = "holopy/scattering/theory/multisphere.py"
+
+
+def _src_items():
+    from harness.lib import pyarr
+    return [
+        dict(file=MULTI_PY, qualname="(header)", name="asum", fn=lambda repo: pyarr.HEADER),
+        dict(file=MULTI_PY, qualname="Multisphere._scsmfo_setup (centers, m)", name="kcentre_src",
+             fn=lambda repo: pyarr.translate_elementwise(
+                 repo, MULTI_PY, "Multisphere._scsmfo_setup", "kcentre_src",
+                 [("scatterer.centers", "R"), ("scatterer.n", "R")], [("medium_wavevec", "R"), ("medium_index", "R")], ["centers", "m"],
+                 ["scatterer", "medium_wavevec", "medium_index"], only_outputs=True)),
+    ]
+
+
+def stage_srctie(ctx):
+    from harness.lib import srctie
+    ok = srctie.run(ctx, "C09", "From Coq Require Import Lia Psatz.\nFrom HV Require Import C09.Model C09.Lemmas C09.Props.\n",
+                    _src_items())
+    ctx.count("srctie:%s" % ("ok" if ok else "broken"))
+
+
 def run(ctx):
     ctx.rule = ("clusters of 1-6 spheres: 45% on/around the exact 30-radius boundary (Pythagorean geometry, +-2^-12, +-2^-20), random spreads, "
                 "unset centre/radius and layered members; every other scatterer kind and non-scatterers; non-trivial = distinct "
@@ -446,7 +468,14 @@ def run(ctx):
                             "multi-sphere hologram covariant under axial rotation", "one-sphere cluster = Lorenz-Mie (far-field option, 1e-3)",
                             "'auto' result bit-equal to the explicitly named theory"]
     ctx.trusted.append("oracle: SCSMFO Fortran solver (amncalc/tmatrix_fields); numpy sqrt in np.linalg.norm")
+    ctx.clauses_proved.append(
+        "source tie: the set-up expressions of Multisphere._scsmfo_setup (centers = (centers - centers.mean(0)) * k, m = n / n_m), "
+        "read per coordinate column from the current source text on every run, are proved to be the coordinates of the model's "
+        "centroid-relative k-scaled centres for every cluster; shift invariance restated for the translated source")
+    ctx.trusted.append("translator harness/lib/pyarr.py (an N x 3 array read as one generic coordinate column; .mean(0) a list fold / "
+                       "length; the guards and loops that precede the two assignments are not read)")
     guarded(ctx, "prove", ctx.prove)
+    guarded(ctx, "source-tie", stage_srctie, ctx)
     boot.boot()
     guarded(ctx, "rule", stage_rule, ctx)
     guarded(ctx, "interpret", stage_interpret, ctx)
@@ -456,8 +485,12 @@ def run(ctx):
 
 
 def replay(ctx, data):
-    boot.boot()
     d = data["data"]
+    if d.get("kind") == "tie":
+        ctx.prove()
+        stage_srctie(ctx)
+        return
+    boot.boot()
     if d.get("kind") == "corr-rule" and "members" in d:
         ms = [(m[0], m[1]) for m in d["members"]]
         got = observe(build_spheres(ms))
